@@ -44,10 +44,19 @@ def cases(draw):
         fn = draw(st.sampled_from(FUNCS))
     axis = 0 if dom in ('D3', 'D4', 'D4h') else draw(st.integers(0, 1))
     skipna, ddof = draw(st.booleans()), draw(st.integers(0, 2))
+    inf_mode = draw(st.sampled_from([0, 0, 2, 0, 1]))   # infinities are values, not missing cells: none / one / both signs in one block
     il, cl = draw(st.sampled_from(['auto', 'str', 'auto', 'str', 'ih'])), draw(st.sampled_from(['auto', 'str', 'auto', 'str', 'ih']))
     n = draw(st.sampled_from([3, 1, 2, 0, 2, 1, 3, 4, 4, 5, 5, 6]))
     m = draw(st.sampled_from([3, 1, 2, 0, 2, 1, 3, 4, 4, 5, 5, 6]))
     blks = draw(gen.blocks(n, m, kinds=kinds, missing=True))
+    if inf_mode:
+        fb = [b for b in blks if b.dtype.kind == 'f' and b.size >= inf_mode]
+        if fb:
+            b = fb[draw(st.integers(0, len(fb) - 1))]
+            pos = draw(st.lists(st.integers(0, b.size - 1), min_size=inf_mode, max_size=inf_mode, unique=True))
+            flat = b.reshape(-1)   # (a view: the generated arrays are C-contiguous)
+            for k, p_ in enumerate(pos):
+                flat[p_] = np.inf if k == 0 else -np.inf
     return {'dom': dom, 'blocks': blks, 'n': n, 'm': m, 'fn': fn, 'axis': axis, 'skipna': skipna, 'ddof': ddof, 'ilabels': il, 'clabels': cl}
 
 
